@@ -16,7 +16,10 @@
 // approved endpoint list must contain the local endpoint -> for DATA / DATAFRAG
 // decode_serialized_payload on the payload bytes exactly as the parser hands
 // them on (so RTPS 4-byte padding is in the loop).
-use std::collections::BTreeSet;
+use std::{
+  collections::BTreeSet,
+  sync::{Arc, Mutex, MutexGuard},
+};
 
 use bytes::Bytes;
 use enumflags2::BitFlags;
@@ -34,15 +37,18 @@ use crate::{
     submessages::*,
   },
   rtps::{Message, MessageBuilder, Submessage, SubmessageBody},
+  dds::qos::QosPolicies,
+  discovery::{sedp_messages::TopicBuiltinTopicData, SpdpDiscoveredParticipantData},
+  messages::submessages::elements::parameter_list::ParameterList,
   security::{
-    access_control::types::{EndpointSecurityAttributes, ParticipantSecurityAttributes, TopicSecurityAttributes},
-    authentication::types::{Challenge, SharedSecret, SharedSecretHandle},
+    access_control::*,
+    authentication::*,
     cryptographic::{
       cryptographic_plugin::{CryptoKeyExchange, CryptoKeyFactory, CryptoTransform},
-      CryptoToken, DecodeOutcome, DecodedSubmessage, EncodedSubmessage,
+      *,
     },
-    types::{PluginSecurityAttributesMask, Property},
-    CryptographicBuiltin,
+    security_plugins::{SecurityPlugins, SecurityPluginsHandle},
+    *,
   },
   structure::{
     cache_change::CacheChange,
@@ -89,9 +95,12 @@ pub enum SubSpec {
   /// DATA through MessageBuilder::data_msg. Without `protect_payload`, `serialized` is the whole
   /// SerializedPayload (>= 4 bytes) and goes in as it is; with it, `serialized` (any length) first
   /// goes through encode_serialized_payload of the sender and the result is what DATA carries.
-  Data { serialized: Vec<u8>, sn: i64, big_endian: bool, protect_payload: bool },
+  /// `via_security_plugins` (with protect_payload; `serialized` >= 4 bytes): the payload is not
+  /// encoded by a direct plugin call but by data_msg itself, which is given the sender's
+  /// SecurityPlugins object exactly as the Writer gives it.
+  Data { serialized: Vec<u8>, sn: i64, big_endian: bool, protect_payload: bool, via_security_plugins: bool },
   /// DATAFRAG through MessageBuilder::data_frag_msg (one fragment holding everything)
-  DataFrag { serialized: Vec<u8>, sn: i64, big_endian: bool, protect_payload: bool },
+  DataFrag { serialized: Vec<u8>, sn: i64, big_endian: bool, protect_payload: bool, via_security_plugins: bool },
   Heartbeat { first: i64, last: i64, count: i32, big_endian: bool, final_flag: bool },
   Gap { before: i64, big_endian: bool },
   AckNack { base: i64, missing: Vec<u32>, count: i32, big_endian: bool },
@@ -136,11 +145,232 @@ pub enum Outcome {
 }
 
 struct Party {
-  plugin: CryptographicBuiltin,
+  plugin: Arc<Mutex<CryptographicBuiltin>>,
   prefix: GuidPrefix,
   p_local: u32,
   e_local: u32,
+  /// only for sender A when it is a writer: a SecurityPlugins object around the SAME plugin
+  /// instance, registered through SecurityPlugins' own calls, so that MessageBuilder::data_msg /
+  /// data_frag_msg can be driven with `Some(security_plugins)` as the Writer does
+  handle: Option<SecurityPluginsHandle>,
 }
+
+impl Party {
+  fn pl(&self) -> MutexGuard<'_, CryptographicBuiltin> {
+    self.plugin.lock().unwrap()
+  }
+}
+
+// ---- the plumbing SecurityPlugins needs around the crypto plugin -------------------------------
+fn unsupported<T>() -> SecurityResult<T> {
+  Err(security_error("verif sec_crypto: authentication / access control are not part of this driver"))
+}
+
+/// Authentication stand-in: hands out an identity handle, nothing else (no certificates here).
+struct NoAuth;
+impl Authentication for NoAuth {
+  fn validate_local_identity(&mut self, _domain_id: u16, _qos: &QosPolicies, guid: GUID) -> SecurityResult<(ValidationOutcome, IdentityHandle, GUID)> {
+    Ok((ValidationOutcome::Ok, 1, guid))
+  }
+  fn validate_remote_identity(
+    &mut self,
+    _t: Option<AuthRequestMessageToken>,
+    _l: IdentityHandle,
+    _r: IdentityToken,
+    _g: GuidPrefix,
+  ) -> SecurityResult<(ValidationOutcome, IdentityHandle, Option<AuthRequestMessageToken>)> {
+    unsupported()
+  }
+  fn begin_handshake_request(&mut self, _i: IdentityHandle, _r: IdentityHandle, _d: Vec<u8>) -> SecurityResult<(ValidationOutcome, HandshakeHandle, HandshakeMessageToken)> {
+    unsupported()
+  }
+  fn begin_handshake_reply(&mut self, _m: HandshakeMessageToken, _i: IdentityHandle, _r: IdentityHandle, _d: Vec<u8>) -> SecurityResult<(ValidationOutcome, HandshakeHandle, HandshakeMessageToken)> {
+    unsupported()
+  }
+  fn process_handshake(&mut self, _m: HandshakeMessageToken, _h: HandshakeHandle) -> SecurityResult<(ValidationOutcome, Option<HandshakeMessageToken>)> {
+    unsupported()
+  }
+  fn get_shared_secret(&self, _h: IdentityHandle) -> SecurityResult<SharedSecretHandle> {
+    unsupported()
+  }
+  fn get_authenticated_peer_credential_token(&self, _h: HandshakeHandle) -> SecurityResult<AuthenticatedPeerCredentialToken> {
+    unsupported()
+  }
+  fn get_identity_token(&self, _h: IdentityHandle) -> SecurityResult<IdentityToken> {
+    unsupported()
+  }
+  fn get_identity_status_token(&self, _h: IdentityHandle) -> SecurityResult<IdentityStatusToken> {
+    unsupported()
+  }
+  fn set_permissions_credential_and_token(&mut self, _h: IdentityHandle, _c: PermissionsCredentialToken, _t: PermissionsToken) -> SecurityResult<()> {
+    unsupported()
+  }
+  fn set_listener(&self) -> SecurityResult<()> {
+    unsupported()
+  }
+}
+
+/// Access control stand-in: hands out a permissions handle, nothing else.
+struct NoAccess;
+impl ParticipantAccessControl for NoAccess {
+  fn validate_local_permissions(&mut self, _a: &dyn Authentication, _i: IdentityHandle, _d: u16, _q: &QosPolicies) -> SecurityResult<PermissionsHandle> {
+    Ok(1)
+  }
+  fn validate_remote_permissions(
+    &mut self,
+    _a: &dyn Authentication,
+    _l: IdentityHandle,
+    _r: IdentityHandle,
+    _t: &PermissionsToken,
+    _c: &AuthenticatedPeerCredentialToken,
+  ) -> SecurityResult<PermissionsHandle> {
+    unsupported()
+  }
+  fn check_create_participant(&self, _h: PermissionsHandle, _d: u16, _q: &QosPolicies) -> SecurityResult<bool> {
+    unsupported()
+  }
+  fn check_remote_participant(&self, _h: PermissionsHandle, _d: u16, _p: Option<&SpdpDiscoveredParticipantData>) -> SecurityResult<bool> {
+    unsupported()
+  }
+  fn get_permissions_token(&self, _h: PermissionsHandle) -> SecurityResult<PermissionsToken> {
+    unsupported()
+  }
+  fn get_permissions_credential_token(&self, _h: PermissionsHandle) -> SecurityResult<PermissionsCredentialToken> {
+    unsupported()
+  }
+  fn set_listener(&self) -> SecurityResult<()> {
+    unsupported()
+  }
+  fn get_participant_sec_attributes(&self, _h: PermissionsHandle) -> SecurityResult<ParticipantSecurityAttributes> {
+    unsupported()
+  }
+}
+impl LocalEntityAccessControl for NoAccess {
+  fn check_create_datawriter(&self, _h: PermissionsHandle, _d: u16, _t: String, _q: &QosPolicies) -> SecurityResult<bool> {
+    unsupported()
+  }
+  fn check_create_datareader(&self, _h: PermissionsHandle, _d: u16, _t: String, _q: &QosPolicies) -> SecurityResult<bool> {
+    unsupported()
+  }
+  fn check_create_topic(&self, _h: PermissionsHandle, _d: u16, _t: String, _q: &QosPolicies) -> SecurityResult<bool> {
+    unsupported()
+  }
+  fn get_topic_sec_attributes(&self, _h: PermissionsHandle, _t: &str) -> SecurityResult<TopicSecurityAttributes> {
+    unsupported()
+  }
+  fn get_datawriter_sec_attributes(&self, _h: PermissionsHandle, _t: String) -> SecurityResult<EndpointSecurityAttributes> {
+    unsupported()
+  }
+  fn get_datareader_sec_attributes(&self, _h: PermissionsHandle, _t: String) -> SecurityResult<EndpointSecurityAttributes> {
+    unsupported()
+  }
+}
+impl RemoteEntityAccessControl for NoAccess {
+  fn check_remote_datawriter(&self, _h: PermissionsHandle, _d: u16, _p: &PublicationBuiltinTopicDataSecure) -> SecurityResult<bool> {
+    unsupported()
+  }
+  fn check_remote_datareader(&self, _h: PermissionsHandle, _d: u16, _s: &SubscriptionBuiltinTopicDataSecure) -> SecurityResult<(bool, bool)> {
+    unsupported()
+  }
+  fn check_remote_topic(&self, _h: PermissionsHandle, _d: u16, _t: &TopicBuiltinTopicData) -> SecurityResult<bool> {
+    unsupported()
+  }
+}
+impl AccessControl for NoAccess {}
+
+/// The crypto plugin as SecurityPlugins owns it: every call goes to the shared CryptographicBuiltin;
+/// handles returned by register_local_* are noted so that the driver can keep using the plugin directly.
+struct SharedCrypto {
+  inner: Arc<Mutex<CryptographicBuiltin>>,
+  local_handles: Arc<Mutex<Vec<u32>>>,
+}
+impl SharedCrypto {
+  fn c(&self) -> MutexGuard<'_, CryptographicBuiltin> {
+    self.inner.lock().unwrap()
+  }
+}
+impl CryptoKeyFactory for SharedCrypto {
+  fn register_local_participant(&mut self, i: IdentityHandle, p: PermissionsHandle, props: &[Property], a: ParticipantSecurityAttributes) -> SecurityResult<ParticipantCryptoHandle> {
+    let h = self.c().register_local_participant(i, p, props, a)?;
+    self.local_handles.lock().unwrap().push(h);
+    Ok(h)
+  }
+  fn register_matched_remote_participant(&mut self, l: ParticipantCryptoHandle, i: IdentityHandle, p: PermissionsHandle, s: SharedSecretHandle) -> SecurityResult<ParticipantCryptoHandle> {
+    self.c().register_matched_remote_participant(l, i, p, s)
+  }
+  fn register_local_datawriter(&mut self, p: ParticipantCryptoHandle, props: &[Property], a: EndpointSecurityAttributes) -> SecurityResult<DatawriterCryptoHandle> {
+    let h = self.c().register_local_datawriter(p, props, a)?;
+    self.local_handles.lock().unwrap().push(h);
+    Ok(h)
+  }
+  fn register_matched_remote_datareader(&mut self, w: DatawriterCryptoHandle, p: ParticipantCryptoHandle, s: SharedSecretHandle, relay_only: bool) -> SecurityResult<DatareaderCryptoHandle> {
+    self.c().register_matched_remote_datareader(w, p, s, relay_only)
+  }
+  fn register_local_datareader(&mut self, p: ParticipantCryptoHandle, props: &[Property], a: EndpointSecurityAttributes) -> SecurityResult<DatareaderCryptoHandle> {
+    let h = self.c().register_local_datareader(p, props, a)?;
+    self.local_handles.lock().unwrap().push(h);
+    Ok(h)
+  }
+  fn register_matched_remote_datawriter(&mut self, r: DatareaderCryptoHandle, p: ParticipantCryptoHandle, s: SharedSecretHandle) -> SecurityResult<DatawriterCryptoHandle> {
+    self.c().register_matched_remote_datawriter(r, p, s)
+  }
+  fn unregister_participant(&mut self, h: ParticipantCryptoHandle) -> SecurityResult<()> {
+    self.c().unregister_participant(h)
+  }
+  fn unregister_datawriter(&mut self, h: DatawriterCryptoHandle) -> SecurityResult<()> {
+    self.c().unregister_datawriter(h)
+  }
+  fn unregister_datareader(&mut self, h: DatareaderCryptoHandle) -> SecurityResult<()> {
+    self.c().unregister_datareader(h)
+  }
+}
+impl CryptoKeyExchange for SharedCrypto {
+  fn create_local_participant_crypto_tokens(&mut self, l: ParticipantCryptoHandle, r: ParticipantCryptoHandle) -> SecurityResult<Vec<ParticipantCryptoToken>> {
+    self.c().create_local_participant_crypto_tokens(l, r)
+  }
+  fn set_remote_participant_crypto_tokens(&mut self, l: ParticipantCryptoHandle, r: ParticipantCryptoHandle, t: Vec<ParticipantCryptoToken>) -> SecurityResult<()> {
+    self.c().set_remote_participant_crypto_tokens(l, r, t)
+  }
+  fn create_local_datawriter_crypto_tokens(&mut self, l: DatawriterCryptoHandle, r: DatareaderCryptoHandle) -> SecurityResult<Vec<DatawriterCryptoToken>> {
+    self.c().create_local_datawriter_crypto_tokens(l, r)
+  }
+  fn set_remote_datawriter_crypto_tokens(&mut self, l: DatareaderCryptoHandle, r: DatawriterCryptoHandle, t: Vec<DatawriterCryptoToken>) -> SecurityResult<()> {
+    self.c().set_remote_datawriter_crypto_tokens(l, r, t)
+  }
+  fn create_local_datareader_crypto_tokens(&mut self, l: DatareaderCryptoHandle, r: DatawriterCryptoHandle) -> SecurityResult<Vec<DatareaderCryptoToken>> {
+    self.c().create_local_datareader_crypto_tokens(l, r)
+  }
+  fn set_remote_datareader_crypto_tokens(&mut self, l: DatawriterCryptoHandle, r: DatareaderCryptoHandle, t: Vec<DatareaderCryptoToken>) -> SecurityResult<()> {
+    self.c().set_remote_datareader_crypto_tokens(l, r, t)
+  }
+  fn return_crypto_tokens(&mut self, t: Vec<CryptoToken>) -> SecurityResult<()> {
+    self.c().return_crypto_tokens(t)
+  }
+}
+impl CryptoTransform for SharedCrypto {
+  fn encode_serialized_payload(&self, plain: Vec<u8>, w: DatawriterCryptoHandle) -> SecurityResult<(Vec<u8>, ParameterList)> {
+    self.c().encode_serialized_payload(plain, w)
+  }
+  fn encode_datawriter_submessage(&self, s: Submessage, w: DatawriterCryptoHandle, r: Vec<DatareaderCryptoHandle>) -> SecurityResult<EncodedSubmessage> {
+    self.c().encode_datawriter_submessage(s, w, r)
+  }
+  fn encode_datareader_submessage(&self, s: Submessage, r: DatareaderCryptoHandle, w: Vec<DatawriterCryptoHandle>) -> SecurityResult<EncodedSubmessage> {
+    self.c().encode_datareader_submessage(s, r, w)
+  }
+  fn encode_rtps_message(&self, m: Message, s: ParticipantCryptoHandle, r: Vec<ParticipantCryptoHandle>) -> SecurityResult<Message> {
+    self.c().encode_rtps_message(m, s, r)
+  }
+  fn decode_rtps_message(&self, m: Message, r: ParticipantCryptoHandle, s: ParticipantCryptoHandle) -> SecurityResult<DecodeOutcome<Message>> {
+    self.c().decode_rtps_message(m, r, s)
+  }
+  fn decode_submessage(&self, e: (SecurePrefix, Submessage, SecurePostfix), r: ParticipantCryptoHandle, s: ParticipantCryptoHandle) -> SecurityResult<DecodeOutcome<DecodedSubmessage>> {
+    self.c().decode_submessage(e, r, s)
+  }
+  fn decode_serialized_payload(&self, b: Vec<u8>, q: ParameterList, r: DatareaderCryptoHandle, w: DatawriterCryptoHandle) -> SecurityResult<Vec<u8>> {
+    self.c().decode_serialized_payload(b, q, r, w)
+  }
+}
+impl Cryptographic for SharedCrypto {}
 
 struct Rx {
   party: Party,
@@ -253,7 +483,28 @@ impl Party {
     } else {
       es(plugin.register_local_datawriter(p_local, &key_props(c), endpoint_attrs(c)), "register_local_datawriter")?
     };
-    Ok(Party { plugin, prefix, p_local, e_local })
+    Ok(Party { plugin: Arc::new(Mutex::new(plugin)), prefix, p_local, e_local, handle: None })
+  }
+
+  /// The same registrations, made through SecurityPlugins (validate_local_identity /
+  /// validate_local_permissions answered by stand-ins, register_local_participant,
+  /// register_local_writer), so that the object can be handed to MessageBuilder.
+  fn new_writer_via_security_plugins(c: &Cfg, prefix: GuidPrefix, writer_eid: EntityId) -> Result<Party, String> {
+    let plugin = Arc::new(Mutex::new(CryptographicBuiltin::new()));
+    let local_handles = Arc::new(Mutex::new(vec![]));
+    let mut sp = SecurityPlugins::new(Box::new(NoAuth), Box::new(NoAccess), Box::new(SharedCrypto { inner: plugin.clone(), local_handles: local_handles.clone() }));
+    let qos = QosPolicies::qos_none();
+    let pguid = GUID::new(prefix, EntityId::PARTICIPANT);
+    es(sp.validate_local_identity(0, &qos, pguid), "SecurityPlugins::validate_local_identity")?;
+    es(sp.validate_local_permissions(0, prefix, &qos), "SecurityPlugins::validate_local_permissions")?;
+    let props = || Some(crate::dds::qos::policy::Property { value: key_props(c), binary_value: vec![] });
+    es(sp.register_local_participant(prefix, props(), participant_attrs(c)), "SecurityPlugins::register_local_participant")?;
+    es(sp.register_local_writer(GUID::new(prefix, writer_eid), props(), endpoint_attrs(c)), "SecurityPlugins::register_local_writer")?;
+    let h = local_handles.lock().unwrap().clone();
+    if h.len() != 2 {
+      return Err(format!("expected 2 local registrations through SecurityPlugins, saw {}", h.len()));
+    }
+    Ok(Party { plugin, prefix, p_local: h[0], e_local: h[1], handle: Some(SecurityPluginsHandle::new(sp)) })
   }
 }
 
@@ -322,14 +573,19 @@ impl CryptoBench {
       let mut p = [0x5a_u8; 12];
       p[0] = 0xA0 + s as u8;
       p[4..12].copy_from_slice(&mix(fab_seed ^ (s as u64)).to_le_bytes());
-      tx.push(Tx { party: Party::new(&cfg, cfg.sender_is_reader, GuidPrefix::new(&p))?, remote: vec![None; RX_COUNT] });
+      let party = if s == 0 && !cfg.sender_is_reader {
+        Party::new_writer_via_security_plugins(&cfg, GuidPrefix::new(&p), EntityId::new(WRITER_EID_KEY, EntityKind::WRITER_WITH_KEY_USER_DEFINED))?
+      } else {
+        Party::new(&cfg, cfg.sender_is_reader, GuidPrefix::new(&p))?
+      };
+      tx.push(Tx { party, remote: vec![None; RX_COUNT] });
     }
     let mut rx = vec![];
     for r in 0..RX_COUNT {
       let mut p = [0x3c_u8; 12];
       p[0] = 0xB0 + r as u8;
       p[4..12].copy_from_slice(&mix(fab_seed ^ (0x100 + r as u64)).to_le_bytes());
-      let mut party = Party::new(&cfg, !cfg.sender_is_reader, GuidPrefix::new(&p))?;
+      let party = Party::new(&cfg, !cfg.sender_is_reader, GuidPrefix::new(&p))?;
       let s = if r == RX_T_OTHER_SENDER { 1 } else { 0 };
       let twist = match r {
         RX_K_SENDER_KEY => Twist::SenderKey,
@@ -343,18 +599,18 @@ impl CryptoBench {
       let mut twist_applied = false;
       // ---- sender side (the third party without tokens is unknown to the sender)
       if deliver {
-        let sp = &mut tx[s].party;
-        let p_r = es(sp.plugin.register_matched_remote_participant(sp.p_local, 2, 2, secret(fab_seed, s, r)), "tx register_matched_remote_participant")?;
+        let sp = &tx[s].party;
+        let p_r = es(sp.pl().register_matched_remote_participant(sp.p_local, 2, 2, secret(fab_seed, s, r)), "tx register_matched_remote_participant")?;
         let e_r = if cfg.sender_is_reader {
-          es(sp.plugin.register_matched_remote_datawriter(sp.e_local, p_r, secret(fab_seed, s, r)), "tx register_matched_remote_datawriter")?
+          es(sp.pl().register_matched_remote_datawriter(sp.e_local, p_r, secret(fab_seed, s, r)), "tx register_matched_remote_datawriter")?
         } else {
-          es(sp.plugin.register_matched_remote_datareader(sp.e_local, p_r, secret(fab_seed, s, r), false), "tx register_matched_remote_datareader")?
+          es(sp.pl().register_matched_remote_datareader(sp.e_local, p_r, secret(fab_seed, s, r), false), "tx register_matched_remote_datareader")?
         };
-        let tp = es(sp.plugin.create_local_participant_crypto_tokens(sp.p_local, p_r), "create_local_participant_crypto_tokens")?;
+        let tp = es(sp.pl().create_local_participant_crypto_tokens(sp.p_local, p_r), "create_local_participant_crypto_tokens")?;
         let te = if cfg.sender_is_reader {
-          es(sp.plugin.create_local_datareader_crypto_tokens(sp.e_local, e_r), "create_local_datareader_crypto_tokens")?
+          es(sp.pl().create_local_datareader_crypto_tokens(sp.e_local, e_r), "create_local_datareader_crypto_tokens")?
         } else {
-          es(sp.plugin.create_local_datawriter_crypto_tokens(sp.e_local, e_r), "create_local_datawriter_crypto_tokens")?
+          es(sp.pl().create_local_datawriter_crypto_tokens(sp.e_local, e_r), "create_local_datawriter_crypto_tokens")?
         };
         tx[s].remote[r] = Some((p_r, e_r));
         let tp = twist_tokens(tp, twist, &mut twist_applied);
@@ -362,25 +618,25 @@ impl CryptoBench {
         tokens_p = tp.iter().map(token_value).collect();
         tokens_e = te.iter().map(token_value).collect();
         // ---- receiver side
-        let p_s = es(party.plugin.register_matched_remote_participant(party.p_local, 3, 3, secret(fab_seed, s, r)), "rx register_matched_remote_participant")?;
+        let p_s = es(party.pl().register_matched_remote_participant(party.p_local, 3, 3, secret(fab_seed, s, r)), "rx register_matched_remote_participant")?;
         let e_s = if cfg.sender_is_reader {
-          es(party.plugin.register_matched_remote_datareader(party.e_local, p_s, secret(fab_seed, s, r), false), "rx register_matched_remote_datareader")?
+          es(party.pl().register_matched_remote_datareader(party.e_local, p_s, secret(fab_seed, s, r), false), "rx register_matched_remote_datareader")?
         } else {
-          es(party.plugin.register_matched_remote_datawriter(party.e_local, p_s, secret(fab_seed, s, r)), "rx register_matched_remote_datawriter")?
+          es(party.pl().register_matched_remote_datawriter(party.e_local, p_s, secret(fab_seed, s, r)), "rx register_matched_remote_datawriter")?
         };
-        es(party.plugin.set_remote_participant_crypto_tokens(party.p_local, p_s, tp), "set_remote_participant_crypto_tokens")?;
+        es(party.pl().set_remote_participant_crypto_tokens(party.p_local, p_s, tp), "set_remote_participant_crypto_tokens")?;
         if cfg.sender_is_reader {
-          es(party.plugin.set_remote_datareader_crypto_tokens(party.e_local, e_s, te), "set_remote_datareader_crypto_tokens")?;
+          es(party.pl().set_remote_datareader_crypto_tokens(party.e_local, e_s, te), "set_remote_datareader_crypto_tokens")?;
         } else {
-          es(party.plugin.set_remote_datawriter_crypto_tokens(party.e_local, e_s, te), "set_remote_datawriter_crypto_tokens")?;
+          es(party.pl().set_remote_datawriter_crypto_tokens(party.e_local, e_s, te), "set_remote_datawriter_crypto_tokens")?;
         }
         rx.push(Rx { party, p_sender: p_s, e_sender: e_s, tokens_p, tokens_e, twist_applied });
       } else {
-        let p_s = es(party.plugin.register_matched_remote_participant(party.p_local, 3, 3, secret(fab_seed, s, r)), "rx register_matched_remote_participant")?;
+        let p_s = es(party.pl().register_matched_remote_participant(party.p_local, 3, 3, secret(fab_seed, s, r)), "rx register_matched_remote_participant")?;
         let e_s = if cfg.sender_is_reader {
-          es(party.plugin.register_matched_remote_datareader(party.e_local, p_s, secret(fab_seed, s, r), false), "rx register_matched_remote_datareader")?
+          es(party.pl().register_matched_remote_datareader(party.e_local, p_s, secret(fab_seed, s, r), false), "rx register_matched_remote_datareader")?
         } else {
-          es(party.plugin.register_matched_remote_datawriter(party.e_local, p_s, secret(fab_seed, s, r)), "rx register_matched_remote_datawriter")?
+          es(party.pl().register_matched_remote_datawriter(party.e_local, p_s, secret(fab_seed, s, r)), "rx register_matched_remote_datawriter")?
         };
         rx.push(Rx { party, p_sender: p_s, e_sender: e_s, tokens_p, tokens_e, twist_applied });
       }
@@ -419,7 +675,7 @@ impl CryptoBench {
       return Err("payload level needs a writer as sender".into());
     }
     let t = &self.tx[0].party;
-    let (enc, extra_qos) = es(t.plugin.encode_serialized_payload(plain.to_vec(), t.e_local), "encode_serialized_payload")?;
+    let (enc, extra_qos) = es(t.pl().encode_serialized_payload(plain.to_vec(), t.e_local), "encode_serialized_payload")?;
     if !extra_qos.parameters.is_empty() {
       return Err("encode_serialized_payload returned extra inline QoS (not expected from the builtin plugin)".into());
     }
@@ -428,7 +684,7 @@ impl CryptoBench {
 
   pub fn decode_payload(&self, rx: usize, encoded: &[u8]) -> Outcome {
     let r = &self.rx[rx];
-    match r.party.plugin.decode_serialized_payload(encoded.to_vec(), Default::default(), r.party.e_local, r.e_sender) {
+    match r.party.pl().decode_serialized_payload(encoded.to_vec(), Default::default(), r.party.e_local, r.e_sender) {
       Ok(p) => Outcome::Ok(p),
       Err(e) => Outcome::Rejected(format!("Err: {e:?}")),
     }
@@ -440,28 +696,42 @@ impl CryptoBench {
     let en = |be: bool| if be { Endianness::BigEndian } else { Endianness::LittleEndian };
     let wguid = GUID::new(t.prefix, self.writer_eid());
     match spec {
-      SubSpec::Data { serialized, sn, big_endian, protect_payload } | SubSpec::DataFrag { serialized, sn, big_endian, protect_payload } => {
-        let carried = if *protect_payload {
+      SubSpec::Data { serialized, sn, big_endian, protect_payload, via_security_plugins } | SubSpec::DataFrag { serialized, sn, big_endian, protect_payload, via_security_plugins } => {
+        let is_data = matches!(spec, SubSpec::Data { .. });
+        let real_path = *protect_payload && *via_security_plugins;
+        if real_path && (serialized.len() < 4 || t.handle.is_none()) {
+          return Err("generator: the SecurityPlugins path needs a SerializedPayload of >= 4 bytes and a writer as sender".into());
+        }
+        // what the CacheChange holds: the plaintext on the SecurityPlugins path, else what DATA shall carry
+        let held = if *protect_payload && !real_path {
           let e = self.encode_payload(serialized)?;
           encoded_payloads.push(e.clone());
           e
         } else {
           serialized.clone()
         };
-        let sp = es(SerializedPayload::from_bytes(&Bytes::from(carried.clone())), "SerializedPayload::from_bytes")?;
+        let sp = es(SerializedPayload::from_bytes(&Bytes::from(held.clone())), "SerializedPayload::from_bytes")?;
         let dd = DDSData::new(sp);
         let cc = CacheChange::new(wguid, SequenceNumber::new(*sn), WriteOptionsBuilder::new().build(), dd);
-        let b = if matches!(spec, SubSpec::Data { .. }) {
-          MessageBuilder::new().data_msg(&cc, self.reader_eid(), wguid, en(*big_endian), None)
+        let plugins = if real_path { t.handle.as_ref() } else { None };
+        let b = if is_data {
+          MessageBuilder::new().data_msg(&cc, self.reader_eid(), wguid, en(*big_endian), plugins)
         } else {
-          if carried.len() > 0xffff || carried.is_empty() {
-            return Err("DATAFRAG driver carries everything in one fragment (1..=65535 bytes)".into());
+          if held.len() > 0xffff || held.is_empty() {
+            return Err("generator: the DATAFRAG driver carries everything in one fragment (1..=65535 bytes)".into());
           }
-          MessageBuilder::new().data_frag_msg(&cc, self.reader_eid(), wguid, FragmentNumber::new(1), carried.len() as u16, carried.len() as u32, en(*big_endian), None)
+          MessageBuilder::new().data_frag_msg(&cc, self.reader_eid(), wguid, FragmentNumber::new(1), held.len() as u16, held.len() as u32, en(*big_endian), plugins)
         };
         let subs = b.add_header_and_build(t.prefix).submessages;
         if subs.len() != 1 {
-          return Err("builder produced no DATA/DATAFRAG".into());
+          return Err("MessageBuilder produced no DATA / DATAFRAG (payload encoding failed inside the builder)".into());
+        }
+        if real_path {
+          match &subs[0].body {
+            SubmessageBody::Writer(WriterSubmessage::Data(d, _)) => encoded_payloads.push(d.serialized_payload.as_ref().map_or(vec![], |b| b.to_vec())),
+            SubmessageBody::Writer(WriterSubmessage::DataFrag(d, _)) => encoded_payloads.push(d.serialized_payload.to_vec()),
+            _ => {}
+          }
         }
         out.extend(subs);
       }
@@ -555,9 +825,9 @@ impl CryptoBench {
           return Err("submessage kind does not fit the sending endpoint".into());
         }
         let r = if is_reader_sub {
-          t.party.plugin.encode_datareader_submessage(sm, t.party.e_local, handles_e.clone())
+          t.party.pl().encode_datareader_submessage(sm, t.party.e_local, handles_e.clone())
         } else {
-          t.party.plugin.encode_datawriter_submessage(sm, t.party.e_local, handles_e.clone())
+          t.party.pl().encode_datawriter_submessage(sm, t.party.e_local, handles_e.clone())
         };
         match es(r, "encode_submessage")? {
           EncodedSubmessage::Encoded(a, b, c) => level1.extend([a, b, c]),
@@ -571,7 +841,7 @@ impl CryptoBench {
     msg.submessages = level1;
     // ---- message protection
     if req.protect_message {
-      msg = es(t.party.plugin.encode_rtps_message(msg, t.party.p_local, handles_p), "encode_rtps_message")?;
+      msg = es(t.party.pl().encode_rtps_message(msg, t.party.p_local, handles_p), "encode_rtps_message")?;
     }
     enc.wire = es(msg.write_to_vec_with_ctx(Endianness::LittleEndian), "serialise wire message")?;
     Ok(enc)
@@ -590,7 +860,7 @@ impl CryptoBench {
 
   fn decode_inner(&self, rx: usize, wire: &[u8], opts: DecodeOpts) -> Result<Vec<u8>, String> {
     let r = &self.rx[rx];
-    let pl = &r.party.plugin;
+    let pl = r.party.pl();
     let msg = Message::read_from_buffer(&Bytes::copy_from_slice(wire)).map_err(|e| format!("parse: {e}"))?;
     // SecurityPlugins looks the sender's crypto handles up by the GUID prefix of the RTPS header
     if msg.header.guid_prefix != self.tx[0].party.prefix {
